@@ -29,7 +29,8 @@
      kh_binds, collision-freeness    cryptographic, stated on the finite world / on the one pair. *)
 From Verif Require Import Exec Ser Spend Ast Types TypeCheck SatSpec Sat LiftModel LiftLimits TheoremA SatProofs FrameDissat
   CompleteThresh CompleteNonMall DenotSpec LiftFullProofs CodecSpec.
-From Verif Require Import DescSpendModel LiftDescWsh LiftDescWorld LiftDescTypes LiftDescWorldTypes LiftDescExamples.
+From Verif Require Import DescSpendModel LiftDescWsh LiftDescWorld LiftDescTypes LiftDescWorldTypes LiftDescExamples LiftDescTypesEx.
+From Verif Require DescSpendExamples.
 From Verif Require SerProofs.
 From Verif Require CodecExt ExtModel ExtProofs ExtCodec.
 Local Open Scope N_scope.
@@ -408,3 +409,52 @@ Theorem C07_shwsh_dispatch_spending_condition :
        verify_spend e commit_ok (spk_shwsh e (encode ke m)) ssig (items ++ [sb']) = true).
 Proof. exact shwsh_dispatch_spending_condition. Qed.
 Print Assumptions C07_shwsh_dispatch_spending_condition.
+
+(* ---- non-vacuity of the "invents no path" theorems of the other output types: the world of C01's
+   descriptor examples (or_i(pk(K0),pk(K1)), K0's signature available) satisfies their hypotheses.
+   [inv_hyps e sv c ke A se f unc rhs m p] is the conjunction of the hypotheses they share:
+   ksort_ok, the empty signature never verifies, linked, locks_compatible, typed B, assets_ok, wf, ms_wf,
+   ctx_frag_ok, unc_agrees, senv_ok, thresh_fit, lift_ctx c unc m = LOk p, leval A p = true. ---- *)
+Import DescSpendExamples.
+Example C07_segwit_invents_nonvacuous :
+  inv_hyps ex_env SvWitnessV0 Segwitv0 ex_ke ex_A (ex_se false) (ex_f ex_ke) (ex_unc ex_ke) true ex_m ex_p /\
+  small_material ex_ke ex_A 80 /\
+  blen (e_sha256 ex_env (encode ex_ke ex_m)) = 32 /\ blen (e_hash160 ex_env (spk_wsh ex_env (encode ex_ke ex_m))) = 20.
+Proof. exact ex_segwit_hyps. Qed.
+Example C07_legacy_invents_nonvacuous :
+  inv_hyps ex_env SvBase Legacy ex_ke ex_A (ex_se false) (ex_f ex_ke) (ex_unc ex_ke) true ex_m ex_p /\
+  material_all sbytes ex_ke ex_A /\ material_all (fun b => blen b < 73) ex_ke ex_A /\
+  sbytes (encode ex_ke ex_m) /\ blen (e_hash160 ex_env (encode ex_ke ex_m)) = 20 /\
+  (forall bs ss, satisfy ex_ke (ex_se false) (ex_f ex_ke) true true ex_m = Some bs ->
+                 witness_to_scriptsig (bs ++ [encode ex_ke ex_m]) = Some ss -> blen (serialize ss) <= 1650).
+Proof. exact ex_legacy_hyps. Qed.
+Example C07_bare_invents_nonvacuous :
+  inv_hyps ex_env SvBase Bare ex_ke ex_A (ex_se false) (ex_f ex_ke) (ex_unc ex_ke) true ex_m ex_p /\
+  material_all sbytes ex_ke ex_A /\ material_all (fun b => blen b < 73) ex_ke ex_A /\
+  (forall bs ss, satisfy ex_ke (ex_se false) (ex_f ex_ke) true true ex_m = Some bs ->
+                 witness_to_scriptsig bs = Some ss -> blen (serialize ss) <= 1650).
+Proof. exact ex_bare_hyps. Qed.
+Example C07_tap_invents_nonvacuous :
+  inv_hyps ex_env SvTapscript Tap ex_ke_tap ex_A (ex_se true) (ex_f ex_ke_tap) (ex_unc ex_ke_tap) true ex_m ex_p /\
+  small_material ex_ke_tap ex_A 520 /\ blen ex_outkey = 32 /\
+  ex_commit (encode ex_ke_tap ex_m) ex_cb = true /\ not_annex ex_cb.
+Proof. exact ex_tap_hyps. Qed.
+
+(* ---- why the P2SH theorems are `_partial`: the 1650-byte scriptSig rule is NOT implied by the Legacy
+   verdict.  sh(thresh(13, c:pk_h(K0), ac:pk_h(K1), .., ac:pk_h(K12))), compressed keys, 72-byte
+   signatures, all available: well-typed B, within_resource_limits = true (363-byte redeem script, 91
+   opcodes, max_script_sig_size 1404), the lift succeeds, the policy is true, the satisfier model returns
+   a satisfaction, witness_to_scriptsig (items ++ [redeem script]) returns - and the scriptSig is longer
+   than 1650 bytes, so verify_sh rejects it in EVERY environment and for every script hash.
+   (Legacy::check_local_policy_validity bounds max_script_sig_size, which counts the items, not the push
+   of the redeem script appended by Sh::get_satisfaction.)  Model-level fact, by evaluation. ---- *)
+Example C07_sh_scriptsig_rule_not_implied :
+  (exists t, type_of sx_m = ROk t /\ c_base (t_corr t) = BB) /\
+  within_resource_limits Legacy (CodecExt.is_uncompressed sx_ke) sx_m = true /\
+  lift_ctx Legacy (CodecExt.is_uncompressed sx_ke) sx_m = LOk sx_p /\ leval sx_A sx_p = true /\
+  blen (encode sx_ke sx_m) <= 520 /\
+  exists bs ss, satisfy sx_ke sx_se sx_f true true sx_m = Some bs /\
+                witness_to_scriptsig (bs ++ [encode sx_ke sx_m]) = Some ss /\
+                1650 < blen (serialize ss) /\
+                forall e h, verify_sh e h (serialize ss) [] = false.
+Proof. exact sx_scriptsig_rule_not_implied. Qed.
